@@ -38,9 +38,9 @@ func c07Allowed(h *rfix.Hdr) (mask map[int]byte) {
 		mask[h.InfoOff[s]+2] = 0xff
 		mask[h.InfoOff[s]+3] = 0xff
 	}
-	for _, g := range hops {
-		mask[h.HopOff[g]] = 0x03 // router alert flags
-	}
+	// Router-alert flags are only consumed on the slow path (the answer replaces the
+	// packet); a packet that is forwarded on the fast path keeps every flag.
+	_ = hops
 	return
 }
 
@@ -61,7 +61,7 @@ func checkC07(r *mon.Run) {
 		}
 	})
 	r.RequireClasses("onehop/outgoing/forwarded", "onehop/incoming/delivered")
-	r.Require(int64(nStars*per)/2, 40, "forwarded_compared", "delivered_compared", "segid_changed", "currhf_changed", "epic_compared")
+	r.Require(int64(nStars*per)/2, 40, "forwarded_compared", "delivered_compared", "segid_changed", "currhf_changed", "epic_compared", "foreign_alert_flag_kept")
 }
 
 func c07Case(r *mon.Run, rng *rand.Rand, s *rfix.Star, idx int) {
@@ -93,6 +93,33 @@ func c07Case(r *mon.Run, rng *rand.Rand, s *rfix.Star, idx int) {
 			if h.Key == nil {
 				h.InAlert, h.EgAlert = rng.IntN(2) == 0, rng.IntN(2) == 0
 			}
+		}
+	}
+	// Alert flags on the hop this router processes, for the side whose interface it
+	// does not own (egress via a sibling / ingress handled by a sibling): not consumed
+	// here, so they must survive.
+	alertKept := false
+	if len(sc.LocalHops) > 0 && rng.IntN(5) == 0 {
+		g := sc.LocalHops[len(sc.LocalHops)-1]
+		lh := sc.Spec.HopAt(g)
+		si, _ := sc.Spec.Locate(g)
+		consDir := sc.Spec.Segs[si].ConsDir
+		if sc.EgIf != 0 && !sc.EgOwned && !sc.Deliver {
+			// travel-egress side
+			if consDir {
+				lh.EgAlert = true
+			} else {
+				lh.InAlert = true
+			}
+			alertKept = true
+		} else if sc.Arr == rfix.ArrInternal && sc.In.IfID != 0 && len(sc.LocalHops) == 1 {
+			// travel-ingress side, ingress processing was the sibling's job
+			if consDir {
+				lh.InAlert = true
+			} else {
+				lh.EgAlert = true
+			}
+			alertKept = true
 		}
 	}
 	ext := rng.IntN(4)
@@ -177,6 +204,9 @@ func c07Case(r *mon.Run, rng *rand.Rand, s *rfix.Star, idx int) {
 	r.Class(fmt.Sprintf("%s/%s/ext%d/l4-%d/epic=%v/egOwned=%v/segid=%v/curr=%v", sc.Shape, ing, ext, l4, asEPIC, sc.EgOwned, changed["segid"], changed["meta-curr"]))
 	if asEPIC {
 		r.Event("epic_compared")
+	}
+	if alertKept {
+		r.Event("foreign_alert_flag_kept")
 	}
 	if r.WantSample() && idx%2999 == 0 {
 		r.Sample(witness(s, sc, fmt.Sprintf("changed=%v", changed), in, &res))
